@@ -264,12 +264,19 @@ static void recBrng(void)
 		}
 		/* chained calls */
 		{
-			static const size_t seqs[][5] = {{32, 11, 19, 2, 32}, {0, 1, 31, 1, 0}, {33, 33, 0, 0, 0}, {64, 1, 32, 0, 0}};
-			static const size_t ivl[] = {32, 65, 0, 100};
-			for (i = 0; i < 4; ++i)
+			static const size_t seqs[][5] = {{32, 11, 19, 2, 32}, {0, 1, 31, 1, 0}, {33, 33, 0, 0, 0}, {64, 1, 32, 0, 0}, {7, 60, 0, 32, 1}, {32, 40, 5, 0, 0}};
+			static const size_t ivl[] = {32, 65, 0, 100, 64, 1};
+			for (i = 0; i < 6; ++i)
 			{
 				octet* ys[5]; octet* state = st_alloc(brngHMAC_keep());
 				vxRandBuf(k, 32); vxRandBuf(v, ivl[i]);
+				if (ivl[i] <= 64)
+				{	/* brng.h: for iv_len <= 64 the synchro value is saved in the state: the caller's exact-size buffer is overwritten and released */
+					octet* tiv = (octet*)malloc(ivl[i] ? ivl[i] : 1); if (!tiv) exit(3); memcpy(tiv, v, ivl[i]);
+					brngHMACStart(state, k, 32, tiv, ivl[i]);
+					memset(tiv, 0xEE, ivl[i] ? ivl[i] : 1); free(tiv);
+				}
+				else
 				brngHMACStart(state, k, 32, v, ivl[i]);
 				for (j = 0; j < 5; ++j) { ys[j] = st_alloc(seqs[i][j]); brngHMACStepR(ys[j], seqs[i][j], state); }
 				sprintf(cls, "hmacsteps:%u", (unsigned)i);
@@ -725,7 +732,16 @@ static int runSteps(int b, size_t p, const char* script)
 	case SB_ENCR: bashPrgStart(st, l, d, ann, al, key, kl); bashPrgEncrStart(st); break;
 	case SB_DECR: bashPrgStart(st, l, d, ann, al, key, kl); bashPrgDecrStart(st); break;
 	case SB_CTR: brngCTRStart(st, key, iv); break;
-	case SB_HMAC: brngHMACStart(st, key, kl, iv, ivlen); break;
+	case SB_HMAC:
+		if (ivlen <= 64)
+		{	/* brng.h: for iv_len <= 64 the synchro value is SAVED in the state - the caller's buffer (exact size) is
+			   overwritten and released right after Start */
+			octet* tiv = (octet*)malloc(ivlen ? ivlen : 1); if (!tiv) exit(3); memcpy(tiv, iv, ivlen);
+			brngHMACStart(st, key, kl, tiv, ivlen);
+			memset(tiv, 0xEE, ivlen ? ivlen : 1); free(tiv);
+		}
+		else brngHMACStart(st, key, kl, iv, ivlen);
+		break;
 	case SB_HOTP: botpHOTPStart(st, digit, key, 32); botpHOTPStepS(st, ctr); break;
 	case SB_TOTP: botpTOTPStart(st, digit, key, 32); break;
 	default: if (!botpOCRAStart(st, steps_suite, key, 32)) return 2; botpOCRAStepS(st, ctr, pp, ss); break;
